@@ -896,10 +896,16 @@ func (e *Engine) verify(fn *ssa.Function, opts VerifyOpts) (u *Unit) {
 	// preconditions
 	env := fr.baseEnv()
 	if !opts.SweepOnly || true {
-		if ct != nil && !opts.Frame {
-			// frame mode judges every path of the function: property-specific preconditions are not assumed
+		if ct != nil {
 			for _, r := range ct.Requires {
 				u.fact(fr.evalBool(r, env, st, st))
+			}
+			// scope clauses restrict the domain of the functional contract only: frame and safety modes judge
+			// every path of the function
+			if !opts.Frame && !opts.SweepOnly {
+				for _, r := range ct.Scope {
+					u.fact(fr.evalBool(r, env, st, st))
+				}
 			}
 		}
 		for _, ic := range ifcts {
@@ -933,9 +939,6 @@ func (e *Engine) verify(fn *ssa.Function, opts VerifyOpts) (u *Unit) {
 	if u.frameMode {
 		fr.autoFreshErrPost(exit, results)
 	}
-	if opts.SweepOnly {
-		return u
-	}
 	// postconditions
 	penv := fr.baseEnv()
 	for h, ord := range fr.loopOrd {
@@ -947,7 +950,7 @@ func (e *Engine) verify(fn *ssa.Function, opts VerifyOpts) (u *Unit) {
 			}
 		}
 	}
-	if ct != nil {
+	if ct != nil && !opts.SweepOnly {
 		for i, r := range results {
 			if i < len(ct.Results) {
 				penv.vars[ct.Results[i]] = r
@@ -1184,8 +1187,12 @@ func (fr *Frame) applyContract(ct *Contract, callee *ssa.Function, recv *Val, ar
 	saveBase := fr.freshBase
 	fr.freshBase = pre.now
 	defer func() { fr.freshBase = saveBase }()
+	scopeCond := "true"
+	for _, sc := range ct.Scope {
+		scopeCond = and(scopeCond, fr.evalBool(sc, env, pre, pre))
+	}
 	for _, en := range ct.Ensures {
-		u.fact(implies(st.pc, fr.evalBool(en, env, st, pre)))
+		u.fact(implies(and(st.pc, scopeCond), fr.evalBool(en, env, st, pre)))
 	}
 	for _, en := range ct.Names {
 		u.fact(implies(st.pc, fr.evalBool(en, env, st, pre)))
